@@ -457,7 +457,9 @@ class HarnessError(Exception):
 def write_replay(prop, machine_cls, tier, res, ops_min, verif_seed, n) -> str:
     outdir = os.path.join(VERIF_DIR, "out", prop)
     os.makedirs(outdir, exist_ok=True)
-    path = os.path.join(outdir, f"violation-{verif_seed}-{res.get('idx', 'c')}-{n}.json")
+    hs = os.environ.get("PYTHONHASHSEED", "0")
+    tag = "" if hs == "0" else f"-hs{hs}"
+    path = os.path.join(outdir, f"violation-{verif_seed}-{res.get('idx', 'c')}-{n}{tag}.json")
     try:
         head = subprocess.run(
             ["git", "-C", os.environ.get("VERIF_REPO", "/repo"), "rev-parse", "HEAD"],
@@ -481,6 +483,7 @@ def write_replay(prop, machine_cls, tier, res, ops_min, verif_seed, n) -> str:
         minimised_from=len(res["ops"]),
         repo_head=head,
         python=sys.version.split()[0],
+        hashseed=os.environ.get("PYTHONHASHSEED", "0"),
     )
     with open(path, "w") as fh:
         json.dump(doc, fh, indent=1, sort_keys=True)
@@ -490,7 +493,11 @@ def write_replay(prop, machine_cls, tier, res, ops_min, verif_seed, n) -> str:
 def replay_file_fresh(path: str) -> tuple[int, str]:
     """Replay in a fresh interpreter; returns (exit code, stdout)."""
     env = dict(os.environ)
-    env["PYTHONHASHSEED"] = "0"
+    try:
+        with open(path) as fh:
+            env["PYTHONHASHSEED"] = str(json.load(fh).get("hashseed", "0"))
+    except (OSError, ValueError):
+        env["PYTHONHASHSEED"] = "0"
     p = subprocess.run(
         [sys.executable, os.path.join(VERIF_DIR, "check.py"), "replay", path],
         capture_output=True,
